@@ -1,9 +1,22 @@
 package metric
 
 import (
+	"strings"
+	"unicode/utf8"
+
 	"github.com/prometheus/client_golang/prometheus"
 	"github.com/prometheus/client_golang/prometheus/promauto"
 )
+
+// ValidLabel makes a name that comes from a client (a table name is any byte
+// string) usable as a label value: prometheus panics on a value that is not
+// valid UTF-8.
+func ValidLabel(s string) string {
+	if utf8.ValidString(s) {
+		return s
+	}
+	return strings.ToValidUTF8(s, "\uFFFD")
+}
 
 var (
 	// unit is ms
